@@ -175,6 +175,11 @@ class Violation:
         return f"Violation({self.prop}, {self.oracle}, {self.detail!r}, guards={self.guards})"
 
 
+#: returned by System.check instead of a list: the transition is outside the property's claim
+#: (e.g. a call the statement allows to raise and that changed the object); do not expand, no verdict
+PRUNE = "PRUNE"
+
+
 class State:
     """impl = the real object(s); model = plain Python reference data."""
 
@@ -223,10 +228,23 @@ class System:
     def key(self, cfg, st):
         return (canon(st.impl), canon(st.model))
 
+    def check_step(self, cfg, pre, ev, obs, post, props):
+        """Step oracles: list of Violation (or PRUNE) for the transition pre --ev/obs--> post.
+        Evaluated on EVERY transition."""
+        return []
+
+    def check_state(self, cfg, pre, ev, obs, post, props):
+        """State oracles of post (pre/ev/obs are context for reporting and guards only: the verdict
+        must depend on post alone).  Evaluated once per distinct state - two transitions reaching the
+        same (implementation, model) key have the same verdict."""
+        return []
+
     def check(self, cfg, pre, ev, obs, post, props):
-        """Return a list of Violation for the transition pre --ev/obs--> post
-        (step oracles and state oracles of post), restricted to props."""
-        raise NotImplementedError
+        """step + state oracles (used by replay and for the initial state)"""
+        v = self.check_step(cfg, pre, ev, obs, post, props)
+        if v == PRUNE or v:
+            return v
+        return self.check_state(cfg, pre, ev, obs, post, props)
 
     def check_initial(self, cfg, st, props):
         return []
@@ -266,6 +284,8 @@ class Result:
         self.watchdog_retries = 0
         self.samples = []
         self.pruned = 0
+        self.outside_claim = 0
+        self.state_checks = 0
         self.wall = 0.0
         self.extra = {}
 
@@ -285,6 +305,8 @@ class Result:
             "watchdog_retries": self.watchdog_retries,
             "samples": self.samples,
             "pruned_after_violation": self.pruned,
+            "outside_claim": self.outside_claim,
+            "state_oracle_evaluations": self.state_checks,
             "wall_s": round(self.wall, 3),
             "extra": self.extra,
         }
@@ -342,15 +364,28 @@ def explore(system: System, cfg, props, max_violations=20, state_cap=None):
                             f"HARNESS-NONDETERMINISM system={system.name} cfg={cfg} "
                             f"history={_history(parents, sid)} ev={ev} choices={choices} obs={obs!r} vs {obs2!r}"
                         )
-                viols = system.check(cfg, st, ev, obs, post, props)
+                viols = system.check_step(cfg, st, ev, obs, post, props)
+                if viols == PRUNE:
+                    res.outside_claim += 1
+                    continue
+                k = None
+                if not viols:
+                    k = digest(system.key(cfg, post))
+                    if k not in seen:
+                        viols = system.check_state(cfg, st, ev, obs, post, props)
+                        res.state_checks += 1
                 if viols:
                     hist = _history(parents, sid) + [[ev, choices]]
                     for v in viols:
                         if len(res.violations) < max_violations:
                             res.violations.append((v, hist))
                     res.pruned += 1
+                    if len(res.violations) >= max_violations:
+                        res.caps.append(f"stopped_after_{max_violations}_violations")
+                        closure = False
+                        frontier.clear()
+                        break
                     continue  # model and implementation diverged: do not expand
-                k = digest(system.key(cfg, post))
                 nt = system.nontrivial(cfg, st, ev, obs, post)
                 if k not in seen:
                     nsid = len(parents)
@@ -402,6 +437,8 @@ def replay(system: System, cfg, history, props):
                 raise HarnessError(f"HARNESS-NONDETERMINISM in replay at step {i}: {obs!r} vs {obs2!r}")
             obs_log.append(obs)
             viols = system.check(cfg, st, ev, obs, post, props)
+            if viols == PRUNE:
+                break
             for v in viols:
                 out.append((v, history[: i + 1]))
             if viols:
